@@ -119,6 +119,15 @@ func keyVariants() map[string][]byte {
 		"31":      []byte("00112233445566778899aabbccddeef"),
 		"binary":  {0, 1, 2, 3, 255, 254, 0, 0, 0, 0, 0, 0, 0, 0, 0, 0, 0, 0, 0, 0, 0, 0, 0, 0, 0, 0, 0, 0, 0, 0, 0, 0, 0},
 		"long":    bytes.Repeat([]byte("ab"), 5000),
+		// other lengths of well-formed hex, and decorations found in the wild
+		"15bytes": []byte("00112233445566778899aabbccddee"),
+		"17bytes": []byte("00112233445566778899aabbccddeeff00"),
+		"24bytes": []byte("00112233445566778899aabbccddeeff0011223344556677"),
+		"32bytes": []byte("00112233445566778899aabbccddeeff00112233445566778899aabbccddeeff"),
+		"1byte":   []byte("00"),
+		"bom":     []byte("\xef\xbb\xbf00112233445566778899aabbccddeeff"),
+		"crlf":    []byte("\r\n00112233445566778899aabbccddeeff\r\n"),
+		"blank":   []byte(" \n\t "),
 	}
 }
 
@@ -161,6 +170,22 @@ func buildHostileRoot(env *Env, root string) (*hostileRoot, error) {
 		}
 		i++
 	}
+	// every key variant next to a well-formed image (a refused image hides what a bad key does)
+	for _, kn := range sortedKeys(keys) {
+		nm := strings.TrimSpace(kn)
+		h.encImgs = append(h.encImgs, mk(fmt.Sprintf("PS3ISO/key-%s.iso", nm), encs["valid"]))
+		h.keys = append(h.keys, mk(fmt.Sprintf("PS3ISO/key-%s.dkey", nm), keys[kn]))
+	}
+	// (these come first in the round-robin of the "files" sessions)
+	var front, rest []string
+	for _, f := range h.files {
+		if strings.HasPrefix(f, "/PS3ISO/key-") && strings.HasSuffix(f, ".iso") {
+			front = append(front, f)
+		} else {
+			rest = append(rest, f)
+		}
+	}
+	h.files = append(front, rest...)
 	// 3k3y area cut at every interesting length
 	full := make([]byte, 6000)
 	env.Rnd.Read(full)
@@ -270,7 +295,7 @@ func crashSession(env *Env, h *hostileRoot, kind int) []*Req {
 	}
 	switch kind {
 	case 0: // every crafted file, opened plainly
-		for k := 0; k < 6; k++ {
+		for k := 0; k < 10; k++ {
 			crashCursor[0]++
 			reqs = append(reqs, nil) // a new connection for every object: a failed critical read ends the previous one
 			reqs = append(reqs, &Req{Op: opOpenFile, Path: h.files[crashCursor[0]%len(h.files)]})
